@@ -20,11 +20,17 @@ mod parking_lot;
 mod ref_count;
 mod stats;
 mod table;
+#[cfg(parity_db_verif)]
+pub mod verif;
 
 pub use btree::BTreeIterator;
 pub use column::{ColId, ValueIterState};
 pub use compress::CompressionType;
 pub use db::{check::CheckOptions, Db, Operation, TreeReader, Value};
+#[cfg(parity_db_verif)]
+pub use db::{VerifColumnStatus, VerifStatus};
+#[cfg(parity_db_verif)]
+pub use index::verif_hooks as verif_index;
 #[cfg(feature = "instrumentation")]
 pub use error::set_number_of_allowed_io_operations;
 pub use error::{Error, Result};
